@@ -1,8 +1,8 @@
 SPECIFICATION Spec
-INVARIANTS StrLaws FindLaws FmtLaws NumLaws
+INVARIANTS StrLaws FindLaws FmtLaws NumLaws FltLaws WideLaws
 CHECK_DEADLOCK FALSE
 CONSTANTS
-  Scopes = {"str", "find", "fmt", "num"}
+  Scopes = {"str", "find", "fmt", "num", "flt", "wide"}
   Win = 2
   AlphaStr = {0, 65, 97, 122, 200}
   LenStr = 3
